@@ -182,6 +182,13 @@ class HgErr(Exception):
         self.eid = eid
 
 
+class HgFalsyErr(HgErr):
+    """An exception object that is falsy (an error carrying an empty list of problems, say): still THE raised object."""
+
+    def __len__(self):
+        return 0
+
+
 def err_id(e) -> int:
     """Maps an exception observed on the implementation to the model's err ids."""
     from hypergraph.exceptions import InfiniteLoopError
@@ -482,7 +489,7 @@ class RealRun:
 
     def env(self, ts=None):
         def _mkerr(eid):
-            e = HgErr(eid)
+            e = HgFalsyErr(eid) if eid % 3 == 2 else HgErr(eid)      # a third of the injected errors are falsy objects
             self.raised.append(e)
             return e
 
